@@ -56,7 +56,10 @@ def c19_good():
                 epi=EPI + '// ' + 'x' * 900 + '\n// BIG-END\n')
     small = yfile('%token <val> NUM\n%type <val> e\n%start e\n', "e : NUM { $$ = $1 } ;\n", epi=EPI + '// SMALL-END\n')
     noepi = yfile('%token <val> NUM\n%type <val> e\n%start e\n', "e : NUM { $$ = $1 } ;\n", second_sep=False)
-    return [('big', big), ('small', small), ('no_epilogue', noepi)]
+    # a machine-written table on one line of 70000 bytes in the epilogue, and one in an action
+    wide = yfile('%token <val> NUM\n%type <val> e\n%start e\n', "e : NUM { $$ = $1 } ;\n", epi=EPI + '// ' + '0123456789' * 7000 + '\n// WIDE-END\n')
+    wideact = yfile('%token <val> NUM\n%type <val> e\n%start e\n', "e : NUM { $$ = $1 /* " + 'abcdefghij' * 7000 + " */ } ;\n", epi=EPI + '// WIDEACT-END\n')
+    return [('big', big), ('small', small), ('no_epilogue', noepi), ('wide_line', wide), ('wide_action', wideact)]
 
 
 def c19_foreign():
@@ -248,6 +251,8 @@ def c14_corpus(ctx):
         gs.append(('lay%d' % i, genrun.fix_tags(gram.layered_expr(rnd))))
     for i in range(5 if ctx.quick else 30):
         gs.append(('rrp%d' % i, genrun.fix_tags(gram.rr_prec_grammar(rnd))))
+    for i in range(1 if ctx.quick else 6):
+        gs.append(('manytok%d' % i, genrun.fix_tags(gram.many_token_grammar(rnd))))
     n = 14 if ctx.quick else 120
     for i in range(n):
         kind = i % 4
@@ -424,6 +429,17 @@ def c13_texts(ctx):
                  '%%\na :', '%%\na : b %prec', "%%\na : 'x", '%%\na : { {', '/*', '/* *', '//', '"abc', "'", "'\\", '$', '$acc', '%%\n%%\n%%', '%type <x>', '%start 5', '-', '<', '>>>', '%left', '%%\n: a']:
         texts.append(('t_' + hashlib.md5(tail.encode()).hexdigest()[:6], tail.encode()))
         texts.append(('t2_' + hashlib.md5(tail.encode()).hexdigest()[:6], ('%token A\n' + tail).encode()))
+    # line endings: CRLF files, CRLF files cut right after a carriage return, a stray carriage return, carriage returns alone
+    small = ('%{\npackage main\n%}\n%union {\n val int\n}\n%token <val> NUM\n%type <val> e\n%start e\n%%\ne : NUM { $$ = $1 }\n  | e NUM { $$ = $1 + $2 }\n  ;\n%%\n'
+             'func GetToken(input string, valTy *ValType, pos *int) int { return -1 }\n').encode()
+    crlf = small.replace(b'\n', b'\r\n')
+    texts.append(('tcr_crlf', crlf))
+    texts.append(('tcr_mac', small.replace(b'\n', b'\r')))
+    for k in range(12 if ctx.quick else 60):
+        i = rnd.randrange(len(small))
+        texts.append(('tcr_stray%d' % k, small[:i] + b'\r' + small[i:]))
+        j = crlf.find(b'\r', rnd.randrange(len(crlf) - 2))
+        texts.append(('tcr_cut%d' % k, crlf[:j + 1]))
     # non-ASCII letters and digits where identifiers, numbers and literals are expected
     for k, ch in enumerate(['\u0663', '\uff11', '\u0967', '\u00e9', '\u4e2d', '\u00b2']):
         for j, tmpl in enumerate(['%%token A %s\n%%%%\na : A ;\n', '%%token A\n%%%%\na : A %s ;\n', '%%token %s\n%%%%\na : %s ;\n', "%%token A\n%%%%\na : '%s' A ;\n", '%s', '%%token A 1%s\n%%%%\na : A ;\n', '%%token A\n%%%%\na : A { $%s } ;\n']):
@@ -461,7 +477,7 @@ def c13_texts(ctx):
                 if op == 0:
                     del bb[i:i + rnd.randint(1, 12)]
                 elif op == 1:
-                    bb[i:i] = bytes(rnd.choice(['\u0663'.encode(), '\u00e9'.encode(), '\u4e2d'.encode(), '\uff11'.encode(), '\u00b2'.encode(), '\u0967'.encode(), b'{', b'}', b'/*', b'*/', b'%%', b"'", b'"', b'%{', b'%}', b'<', b'>', b'\x00', b'\xff\xfe', b'%token', b'%prec', b':', b'|', b';', b'$$', b'\\', b'%union', b'\r\n']))
+                    bb[i:i] = bytes(rnd.choice(['\u0663'.encode(), '\u00e9'.encode(), '\u4e2d'.encode(), '\uff11'.encode(), '\u00b2'.encode(), '\u0967'.encode(), b'{', b'}', b'/*', b'*/', b'%%', b"'", b'"', b'%{', b'%}', b'<', b'>', b'\x00', b'\xff\xfe', b'%token', b'%prec', b':', b'|', b';', b'$$', b'\\', b'%union', b'\r\n', b'\r']))
                 elif op == 2:
                     j = rnd.randrange(len(bb))
                     bb[i:i] = bb[j:j + rnd.randint(1, 30)]
